@@ -361,7 +361,7 @@ func analyse(c sh.Case, tr *sh.Trace) *analysis {
 		an.fail("final-open", -1, "", 0, "pools are quiet but backend connection(s) survive inside a transaction or with autocommit off: %v", an.dirty)
 		return an
 	}
-	if !tr.FreshOK && strings.Contains(tr.FreshErr, "timed out") {
+	if !tr.FreshOK && (strings.Contains(tr.FreshErr, "timed out") || strings.Contains(tr.FreshErr, "timeout")) {
 		an.skip = "the fresh session's statements hit max_sql_execute_time (machine too slow): inconclusive"
 		return an
 	}
